@@ -644,13 +644,19 @@ Definition decode_leaf (k : lkind) (w : wv) : dres :=
    Decoding the encoding INTO the factory defaults is [overlay (o_strip defaults)]. *)
 Inductive otv : Type :=
 | OSc (omit zero : bool) (s : string)
-| ORec (omit : bool) (fs : list (string * otv)).
+| ORec (omit : bool) (fs : list (string * otv))
+| ONil (omit : bool).     (* a nil pointer to a struct: encode returns nil, the key is written with null *)
 
+(* the typed projection has no entry for a nil section *)
 Fixpoint o_strip (v : otv) : tv :=
   match v with
   | OSc _ _ s => VSc s
   | ORec _ fs => VRec ((fix go (fs : list (string * otv)) : list (string * tv) :=
-                          match fs with [] => [] | (k, x) :: r => (k, o_strip x) :: go r end) fs)
+                          match fs with
+                          | [] => []
+                          | (k, x) :: r => match x with ONil _ => go r | _ => (k, o_strip x) :: go r end
+                          end) fs)
+  | ONil _ => VRec []
   end.
 
 Fixpoint o_zero (v : otv) : bool :=
@@ -658,9 +664,10 @@ Fixpoint o_zero (v : otv) : bool :=
   | OSc _ z _ => z
   | ORec _ fs => (fix go (fs : list (string * otv)) : bool :=
                     match fs with [] => true | (_, x) :: r => o_zero x && go r end) fs
+  | ONil _ => true
   end.
 
-Definition o_omit (v : otv) : bool := match v with OSc o _ _ => o | ORec o _ => o end.
+Definition o_omit (v : otv) : bool := match v with OSc o _ _ => o | ORec o _ => o | ONil o => o end.
 
 (* the field is left out of the effective configuration *)
 Definition o_omitted (v : otv) : bool := o_omit v && o_zero v.
@@ -668,6 +675,7 @@ Definition o_omitted (v : otv) : bool := o_omit v && o_zero v.
 Fixpoint encode_o (v : otv) : cv :=
   match v with
   | OSc _ _ s => CScalar s
+  | ONil _ => CNull
   | ORec _ fs =>
       CMap ((fix go (fs : list (string * otv)) : list (string * cv) :=
                match fs with
@@ -713,4 +721,100 @@ Fixpoint notify (conf : cv) (exts : list (option (list (path * cv)))) : list (cv
       let clone := conf in                       (* a fresh deep copy: same value, no sharing *)
       let '(rest, conf') := notify conf r in     (* the merges go to the clone, conf is untouched *)
       ((clone, apply_muts muts clone) :: rest, conf')
+  end.
+
+(* =====================================================================================
+   Part 10 — the encoder, all shapes in one model (encoder.go encode / encodeStruct /
+   encodeSlice / encodeMap / encodeHook with confmap.encoderConfig's hooks).
+     XNil            nil pointer or nil interface: encode returns nil
+     XPtr v          non-nil pointer or interface: encode(value.Elem()); for omitempty it is NOT zero,
+                     even when it points to a zero value
+     XLeaf z s       scalar, or a TextMarshaler that is not opaque (its text s); z = reflect IsZero
+     XOpaque z s     configopaque-like TextMarshaler: the marker, whatever the secret s is
+     XList n l       slice (n = it is nil): element-wise
+     XArray l        array: falls into the DEFAULT branch — only the hooks on the whole value, the
+                     elements are NOT encoded; they keep their Go types, so what a consumer sees of
+                     an element is its own rendering (marker for an opaque element); elements are
+                     (opaque?, zero?, text)
+     XMap n kvs      map: keys must encode to strings (string kinds, TextMarshaler keys), anything
+                     else makes the whole Marshal fail (errNonStringEncodedKey)
+     XStruct fs      fields (name, omitempty?, value): skipped when omitempty and IsZero, or when
+                     the name is "-".  (squash members are flattened by the harness as before) *)
+Inductive xkey : Type := KStr (s : string) | KText (s : string) | KBad.
+
+Inductive xv : Type :=
+| XNil
+| XPtr (v : xv)      (* a NON-nil pointer or interface: transparent for encode, but never IsZero *)
+| XLeaf (zero : bool) (s : string)
+| XOpaque (zero : bool) (s : string)
+| XList (isnil : bool) (l : list xv)
+| XArray (l : list (bool * bool * string))
+| XMap (isnil : bool) (kvs : list (xkey * xv))
+| XStruct (fs : list (string * bool * xv)).
+
+Definition key_str (k : xkey) : string := match k with KStr s | KText s => s | KBad => "<non-string key>" end.
+Definition key_bad (k : xkey) : bool := match k with KBad => true | _ => false end.
+
+Fixpoint x_zero (v : xv) : bool :=
+  match v with
+  | XNil => true
+  | XPtr _ => false
+  | XLeaf z _ | XOpaque z _ => z
+  | XList n _ | XMap n _ => n
+  | XArray l => forallb (fun e : bool * bool * string => snd (fst e)) l
+  | XStruct fs => (fix go (fs : list (string * bool * xv)) : bool :=
+                     match fs with [] => true | (_, _, x) :: r => x_zero x && go r end) fs
+  end.
+
+Definition x_skipped (name : string) (omit : bool) (x : xv) : bool :=
+  String.eqb name "-" || (omit && x_zero x).
+
+Fixpoint encode_x (v : xv) : cv :=
+  match v with
+  | XNil => CNull
+  | XPtr v' => encode_x v'
+  | XLeaf _ s => CScalar s
+  | XOpaque _ _ => CScalar redacted
+  | XList _ l => CList ((fix go (l : list xv) : list cv :=
+                           match l with [] => [] | x :: r => encode_x x :: go r end) l)
+  | XArray l => CList (map (fun e : bool * bool * string => CScalar (if fst (fst e) then redacted else snd e)) l)
+  | XMap _ kvs => CMap ((fix go (kvs : list (xkey * xv)) : list (string * cv) :=
+                           match kvs with [] => [] | (k, x) :: r => (key_str k, encode_x x) :: go r end) kvs)
+  | XStruct fs => CMap ((fix go (fs : list (string * bool * xv)) : list (string * cv) :=
+                           match fs with
+                           | [] => []
+                           | (n, o, x) :: r => if x_skipped n o x then go r else (n, encode_x x) :: go r
+                           end) fs)
+  end.
+
+(* Marshal fails: a key that does not encode to a string is met while encoding (not inside a
+   skipped field) *)
+Fixpoint x_bad (v : xv) : bool :=
+  match v with
+  | XNil | XLeaf _ _ | XOpaque _ _ | XArray _ => false
+  | XPtr v' => x_bad v'
+  | XList _ l => (fix go (l : list xv) : bool := match l with [] => false | x :: r => x_bad x || go r end) l
+  | XMap _ kvs => (fix go (kvs : list (xkey * xv)) : bool :=
+                     match kvs with [] => false | (k, x) :: r => key_bad k || x_bad x || go r end) kvs
+  | XStruct fs => (fix go (fs : list (string * bool * xv)) : bool :=
+                     match fs with
+                     | [] => false
+                     | (n, o, x) :: r => (if x_skipped n o x then false else x_bad x) || go r
+                     end) fs
+  end.
+
+Definition marshal_x (v : xv) : option cv := if x_bad v then None else Some (encode_x v).
+
+(* the non-secret scalars of a value *)
+Fixpoint x_plains (v : xv) : list string :=
+  match v with
+  | XNil | XOpaque _ _ => []
+  | XPtr v' => x_plains v'
+  | XLeaf _ s => [s]
+  | XList _ l => (fix go (l : list xv) : list string := match l with [] => [] | x :: r => x_plains x ++ go r end) l
+  | XArray l => map snd (filter (fun e : bool * bool * string => negb (fst (fst e))) l)
+  | XMap _ kvs => (fix go (kvs : list (xkey * xv)) : list string :=
+                     match kvs with [] => [] | (_, x) :: r => x_plains x ++ go r end) kvs
+  | XStruct fs => (fix go (fs : list (string * bool * xv)) : list string :=
+                     match fs with [] => [] | (_, _, x) :: r => x_plains x ++ go r end) fs
   end.
